@@ -174,6 +174,10 @@ func NeedSep(a, b Tok) bool {
 	if wordish(a) && b.Kind == TStr {
 		return true
 	}
+	if a.Kind == TStr && b.Kind == TWord && b.Text[0] == '_' {
+		// a string may be followed directly by an identifier starting with '_' ('_' is not alphanumeric)
+		return false
+	}
 	if a.Kind == TStr && (wordish(b) || b.Kind == TStr) {
 		// "s"x fails in the lexer; "a""b" would lex as two strings, but keep apart
 		return true
